@@ -249,7 +249,8 @@ def _run(ctx, drv):
                 start = drv.eng.loads(render.render(nodes).text)
             else:
                 start = drv.eng.loads(corpus.read(r.choice(corpus_files)))
-        except Exception:
+        except Exception as ex:
+            res.count(("history_start_not_accepted(generated; C02 decides):" if src < 0.9 else "history_start_not_accepted(corpus file):") + type(ex).__name__)
             continue
         if isinstance(start, list):
             start = start[0]
